@@ -59,6 +59,7 @@ fn rec_ops(m: &HashMap<String, String>) {
             "chain3" => ops::sess_chain(sid0 + i, fam, sd, &o, true),
             "pure" => ops::sess_pure(sid0 + i, fam, sd, &o),
             "deg" => ops::sess_deg(sid0 + i, fam, sd, &o),
+            "history" => ops::sess_history(sid0 + i, fam, sd, &o),
             _ => panic!("unknown kind {}", kind),
         };
         writeln!(out, "{}", s.finish()).unwrap();
